@@ -290,6 +290,12 @@ func (w *World) dial(ctx context.Context, network, address string, timeout time.
 		}
 		return fail(&net.OpError{Op: "dial", Net: network, Addr: tcpAddr(key), Err: errors.New("connect: connection refused")})
 	}
+	if w.ConnectDelay != nil {
+		// the destination answers the SYN late: the dial completes after a delay
+		if d := w.ConnectDelay(node, key); d > 0 {
+			simrt.Sleep(d)
+		}
+	}
 	if ctx.Err() != nil {
 		return fail(&net.OpError{Op: "dial", Net: network, Err: ctx.Err()})
 	}
